@@ -1,0 +1,50 @@
+//go:build verif
+// +build verif
+
+package ipp
+
+import "fmt"
+
+// VerifDecode decodes an IPP message with the service's own decoder and returns what it decoded as a flat list:
+// one "header" entry, one entry per group tag, one entry per attribute value (value tag, the attribute name on
+// the first value, the value as big-endian bytes) and one "data" entry with the length of what follows the
+// attributes.
+func VerifDecode(raw []byte) ([]string, error) {
+	m := &ippMsg{}
+	err := m.decode(raw)
+	out := []string{fmt.Sprintf("header %d.%d %d %d", m.versionMajor, m.versionMinor, m.statusCode, m.requestID)}
+	val := func(tag byte, name string, i int, v []byte) {
+		if i > 0 {
+			name = ""
+		}
+		out = append(out, fmt.Sprintf("value %02x %q %x", tag, name, v))
+	}
+	be := func(x int32) []byte { return []byte{byte(x >> 24), byte(x >> 16), byte(x >> 8), byte(x)} }
+	for _, g := range m.attributes {
+		out = append(out, fmt.Sprintf("group %02x", g.tag))
+		for _, v := range g.val {
+			switch t := v.(type) {
+			case *valInt:
+				for i, x := range t.val {
+					val(t.tag, t.name, i, be(x))
+				}
+			case *valStr:
+				for i, x := range t.val {
+					val(t.tag, t.name, i, []byte(x))
+				}
+			case *valBool:
+				for i, x := range t.val {
+					b := byte(0)
+					if x {
+						b = 1
+					}
+					val(t.tag, t.name, i, []byte{b})
+				}
+			case *valRangeInt:
+				val(t.tag, t.name, 0, append(be(t.low), be(t.high)...))
+			}
+		}
+	}
+	out = append(out, fmt.Sprintf("data %d", len(m.data)))
+	return out, err
+}
